@@ -168,7 +168,7 @@ func (f *frame) execInstr(in ssa.Instruction) {
 		f.set(n, sl)
 	case *ssa.MakeChan:
 		p := h.newObj(f.st, types.Typ[types.Int], false)
-		x.chanInit(f.st, p.S, f.val(n.Size).S)
+		x.chanInit(f.st, Val{T: n.Type(), S: p.S}, f.val(n.Size).S)
 		f.set(n, Val{S: p.S})
 	case *ssa.MakeInterface:
 		f.set(n, x.box(f.val(n.X), n.X.Type()))
@@ -315,6 +315,11 @@ func (f *frame) unop(n *ssa.UnOp) {
 		lv.T = n.Type()
 		f.regs[n] = lv
 		f.assume(x.heap.valAssume(f.st, lv))
+		if g, ok := n.X.(*ssa.Global); ok && isInterface(n.Type()) && typeKey(n.Type()) == "error" && !x.prog.isRepoPkg(g.Pkg) {
+			// exported error sentinels of libraries (io.EOF, ttrpc.ErrClosed, ...) are non-nil
+			x.vc.Assume["library error sentinel values are non-nil and never reassigned ("+g.Pkg.Pkg.Name()+"."+g.Name()+")"] = true
+			f.assume(Not(Eq(lv.Fs[0].S, "0")))
+		}
 	case token.NOT:
 		f.set(n, Val{S: Not(v.S)})
 	case token.SUB:
